@@ -46,15 +46,22 @@ def generate(rng, tier):
         ops.append(scen.cmd("create", scen.root_arg(sub), *gen.fmt_args(gen.pick_formats(rng, 1, 2))))
     fmts = list(observe.FORMATS) if rng.random() < 0.1 else gen.pick_formats(rng, 1, 3)
     args = gen.fmt_args(fmts + ([rng.choice(fmts)] if rng.random() < 0.15 else []))  # sometimes a format is named twice
-    if rng.random() < 0.25:
+    if rng.random() < (0.5 if nested else 0.25):
         args += ["-i", rng.choice(["*.xml", "notes", "z9", "sub/", "d1", "*.jpg"])]
     ops.append(scen.cmd("create", "@R", *args))
     co = ["verify", "@R", "-dh", "-co"]
     if rng.random() < 0.6:
         co += ["-h", rng.choice(fmts)]
     ops.append(scen.cmd(*co))
-    # metamorphic edit
     files = gen.tree_files(tree)
+    inner = [f for f in files if any(f.startswith(n + "/") for n in nested)]
+    if inner and rng.random() < 0.5:
+        # a partial generation that records files of a nested history only: the outer history gets a generation that
+        # merely references the nested one; what is ignored stays the same for every later directory hash
+        ops.append(scen.cmd("create", "@R", *gen.fmt_args(fmts[:1]), "-sf", "@R/" + rng.choice(inner)))
+        if rng.random() < 0.5:
+            ops.append(scen.cmd(*co))
+    # metamorphic edit
     dirs = [d for d in gen.tree_dirs(tree)]
     k = rng.random()
     edit = None
@@ -151,7 +158,7 @@ def execute(sc, ctx):
             for hr, gens in A.new.items():
                 m = gens[0][2]
                 rh = m["roothash"]
-                if rh is None and not A.nodh and A.cmd_root == w.root:
+                if rh is None and not A.nodh and A.cmd_root == w.root and A.mode == "folder":
                     ctx.violate({"kind": "roothash-missing"}, f"{argv}: {os.path.relpath(hr, w.root)}")
                     return
                 for fmt in (rh["content"] if rh else {}):
@@ -161,7 +168,7 @@ def execute(sc, ctx):
                     this.setdefault(hr, {})[fmt] = (rh["content"][fmt], rh["structure"].get(fmt))
                 for r in m["dirs"]:
                     ap = os.path.normpath(os.path.join(hr, r["path"]))
-                    if sorted(r["content"]) != sorted(A.formats) and A.cmd_root == w.root and not A.nodh:
+                    if sorted(r["content"]) != sorted(A.formats) and A.cmd_root == w.root and not A.nodh and A.mode == "folder":
                         ctx.violate({"kind": "directory-hash-formats-differ"}, f"{argv}: {r['path']!r}: {sorted(r['content'])}")
                         return
                     for fmt in r["content"]:
@@ -169,14 +176,14 @@ def execute(sc, ctx):
                                              A.is_ignored, memo_by_fmt, enum_profile):
                             return
                         this.setdefault(ap, {})[fmt] = (r["content"][fmt], r["structure"].get(fmt))
-            if A.cmd_root == w.root:
+            if A.cmd_root == w.root and A.mode == "folder":
                 recorded.append(this)
         elif argv[0] == "verify":
-            pats = hv.latest_patterns() if not hv.error and hv.generations else None
+            pats = hv.accumulated_patterns() if not hv.error and hv.generations else None
             ig = observe.make_ignore(pats or observe.default_patterns(), w.root)
             memo_by_fmt = {}
             n = 0
-            for line in res.stdout.splitlines():
+            for line in res.stdout.split("\n"):
                 m = DIR_LINE.match(line)
                 if m:
                     ap = os.path.normpath(os.path.join(w.root, m.group(1)))
@@ -194,7 +201,7 @@ def execute(sc, ctx):
                 return
     # metamorphic relation between the two root generations
     hv = observe.HistoryView(w.root)
-    pats = (hv.latest_patterns() if not hv.error and hv.generations else None) or observe.default_patterns()
+    pats = (hv.accumulated_patterns() if not hv.error and hv.generations else None) or observe.default_patterns()
     ig_final = observe.make_ignore(pats, w.root)
     if edit and len(recorded) >= 2:
         before, after = recorded[-2], recorded[-1]
